@@ -20,8 +20,9 @@ ALT = REPO != "/repo"
 BUILD_DIR = SIM if not ALT else os.path.join(VERIF, "sim-alt")
 BIN = os.path.join(BUILD_DIR, "target", "debug", "redproxy-rs")
 PKI = os.path.join(SIM, "pki")
-REPLAYS = os.path.join(VERIF, "replays")
-EVIDENCE = os.path.join(VERIF, "evidence")
+# sensitivity experiments (VERIF_REPO) never touch the evidence and replay files of the registered checks
+REPLAYS = os.path.join(VERIF, "replays") if not ALT else "/dev/shm/verif-alt/replays"
+EVIDENCE = os.path.join(VERIF, "evidence") if not ALT else "/dev/shm/verif-alt/evidence"
 KNOWN = os.path.join(VERIF, "known_findings.json")
 DEFAULT_SEED = 20261003
 WATCHDOG_S = 120.0
